@@ -87,6 +87,13 @@ def run(ctx):
         if got == want:
             ctx.ob('C20.D1', 'Qty.%s == %s' % (name, show(want)), True, '%s:%d' % (F, fn.lineno))
             return
+        # routed through the comparison helper: inherits the unit check, which arithmetic does not have
+        if got[0] == 'mcall' and got[1] == ('name', 'self') and got[2] == '_cmp_op':
+            _v(ctx, 'C20.D1', fn, 'divmod(Quantity(7, "A"), Quantity(2, "V")) raises TypeError ("Quantity units differ") where the values '
+               'give (3, 1), and Quantity(1, "kg") with Quantity(0, None) raises TypeError instead of ZeroDivisionError: %s goes through '
+               '_cmp_op, whose unit check belongs to the comparisons only' % name,
+               'Qty.%s is routed through _cmp_op (%s) and inherits the unit check of the comparison operators' % (name, show(got)))
+            return
         # un-unwrapped operand?
         w = None
         if _replace(got, ('P', 'other'), U) == want:
@@ -250,6 +257,17 @@ def _cmp_op(ctx, methods):
             elif text in unit_eq:
                 cs.append(('differ', not pos))
             else:
+                import re as _re
+                mo = _re.match(r'^(\w+)\((\w+)\.unit\) (!=|==) (\w+)\((\w+)\.unit\)$', text)
+                if mo and mo.group(1) == mo.group(4) and {mo.group(2), mo.group(5)} == {s, o} \
+                        and mo.group(1) not in ('str', 'six.text_type'):
+                    ctx.violation('C20.D1', '%s::Qty._cmp_op' % F, text,
+                                  "Quantity(5, '/s') < Quantity(6, '/h') answers instead of raising TypeError: the units are compared "
+                                  "after `%s(...)`, which maps several different units to the same text (to_pint sends /s, /min, /h "
+                                  "and None all to '')" % mo.group(1),
+                                  'Qty._cmp_op compares units through %s(), a many-to-one mapping, so differing units can pass the '
+                                  'unit check' % mo.group(1), file=F, line=fn.lineno, engine='E9')
+                    return
                 problems.append('unrecognised condition %r' % text)
         got.add((tuple(cs), kind, val))
     want = {
